@@ -275,7 +275,7 @@ def token_class_map(idx, root='hexasm::Directive'):
                 for a in walk(f.body):
                     for b in children(a):
                         parents[id(b)] = a
-            toks = _case_tokens_around(idx, n, parents)
+            toks = _case_tokens_around(idx, n, parents) if _is_switch_subject(idx, targ[0], n, parents) else set()
             for k in toks or ['*']:
                 m.setdefault(k, set()).add(cls)
     return m
@@ -301,6 +301,38 @@ def _switch_group_tokens(idx, sibs, i):
         toks.update(labs)
         j -= 1
     return toks
+
+
+def _is_switch_subject(idx, arg, site, parents):
+    """Is the token argument the value the enclosing switch dispatches on (the same variable, or a local initialised by the same
+    call as the switch condition)?  Only then do the case labels around the site bound it."""
+    x = site
+    sw = None
+    while id(x) in parents:
+        x = parents[id(x)]
+        if x.get('kind') == 'SwitchStmt':
+            sw = x
+            break
+    if sw is None:
+        return False
+    cond = children(sw)[0] if not (sw.get('hasVar') or sw.get('hasInit')) else children(sw)[1]
+
+    def key(e):
+        e = strip(e)
+        while e.get('kind') in ('ImplicitCastExpr', 'ParenExpr', 'CXXStaticCastExpr') and children(e):
+            e = strip(children(e)[0])
+        if e.get('kind') == 'DeclRefExpr':
+            d = idx.by_id.get((e.get('referencedDecl') or {}).get('id'))
+            if isinstance(d, dict) and d.get('kind') == 'VarDecl' and children(d):
+                k2 = key(children(d)[-1])
+                if k2 and k2[0] == 'call':
+                    return k2
+            return ('var', (e.get('referencedDecl') or {}).get('id'))
+        if e.get('kind') in ('CXXMemberCallExpr', 'CallExpr'):
+            return ('call', callee_of(e)[1])
+        return None
+    ka, kc = key(arg), key(cond)
+    return ka is not None and ka == kc
 
 
 def _case_tokens_around(idx, n, parents):
